@@ -141,6 +141,7 @@ impl RawPeer {
         conn.set_io(side, |io| {
             io.raw = true;
             io.yield_pm = 0;
+            io.wyield_pm = 0;
         });
         // by default a scripted peer consumes whatever the library writes (the tap keeps it)
         conn.set_auto_drain(1 - side, true);
